@@ -51,6 +51,11 @@ class BuildSolution(Contract):
         # tasks that declare a release date and a (soft / hard) due date
         for req in ("static", "delayed", "select", "cumulative+worker"):
             out.append(dict(ts=("Fm", "Vo"), req=req, cal="none", horizon="int", dated="mixed"))
+        # "every schedule the solver can be steered to return": the report of an enumerated alternative (the second
+        # solution of the same solver) is as faithful as the first one
+        for ts in (("Fm",), ("Fo",), ("Fm", "Vo")):
+            for req in ("static", "select", "dynamic", "cumulative+worker"):
+                out.append(dict(ts=ts, req=req, cal="none", horizon="int", again=True))
         return out
 
     def scenario(self, ps, P, case):
@@ -104,8 +109,12 @@ class BuildSolution(Contract):
                 t.add_required_resource(res[1])
             tasks.append(t)
         P.apply_pins(ps)
-        solver = ps.SchedulingSolver(problem=pb)
+        P.assume(P.int("verbosity") >= 0)
+        P.assume(P.int("verbosity") <= 2)
+        solver = ps.SchedulingSolver(problem=pb, verbosity=P.int("verbosity"))  # any verbosity
         sol = solver.solve()
+        if case.get("again") and is_solution(sol):
+            sol = solver.find_another_solution()
         return dict(pb=pb, tasks=tasks, res=res, solver=solver, sol=sol)
 
     def clauses(self, P, ctx, case):
@@ -113,7 +122,7 @@ class BuildSolution(Contract):
         out = []
         if not is_solution(sol):
             out.append(Clause("state[no solution object without a sat answer]", z3.BoolVal(sol is False), props=("C11",), kind="state"))
-            if P.symbolic:
+            if P.symbolic and not case.get("again"):
                 # C05: `no solution` is only reported on unsat / unknown, and unsat is about exactly what initialize() stacked
                 G = ctx["solver"]._solver
                 out.append(Clause("post[False is returned only when z3 does not answer sat]", z3.BoolVal(G.last != z3.sat), props=("C05",), kind="sound"))
@@ -201,3 +210,55 @@ class BuildSolution(Contract):
             return []
         ts = sol.tasks[ctx["tasks"][0].name]
         return [Clause("sentinel[first task starts at 0]", T(ts.start) == 0, props=("C11", "C01", "C02", "C06"), kind="sound")]
+
+
+def _report_native_search(case, params, ob):
+    """real library: the case's problem on small concrete instances, every schedule reached by solve() and repeated
+    find_another_solution(): each report must be self-consistent (a task lists a resource exactly when the resource
+    lists an assignment for it; a task that is not scheduled lists nothing)"""
+    import io, contextlib, warnings
+    from psvc import runner
+    from psvc.contract import Params
+
+    if not case.get("again"):
+        return {"confirmed": False, "observation": {"reason": "single-solution case: replayed with pins only"}}
+    ps = runner.native_ps()
+    con = BuildSolution()
+    tried = 0
+    for H in sorted({int(params.get("H") or 3), 3, 4}):
+        vals = dict(params)
+        vals.update(H=H)
+        for k in list(vals):
+            if k.endswith("_dur") or k.endswith("_min"):
+                vals[k] = max(1, min(int(vals[k] or 1), 2))
+        for i in range(len(case["ts"])):
+            vals.setdefault(f"t{i+1}_dur", 1)
+            vals.setdefault(f"t{i+1}_min", 1)
+        import processscheduler.base as base
+
+        base.active_problem = None
+        P = Params(vals)
+        with contextlib.redirect_stdout(io.StringIO()), warnings.catch_warnings():
+            warnings.simplefilter("ignore")
+            try:
+                c1 = dict(case)
+                c1.pop("again")
+                ctx = con.scenario(ps, P, c1)
+            except Exception:  # noqa
+                continue
+            sol, solver, n = ctx["sol"], ctx["solver"], 0
+            seen = []
+            while is_solution(sol) and n < 40:
+                n += 1
+                for tn, ts in sol.tasks.items():
+                    listed_by = sorted(rn for rn, rs in sol.resources.items() if any(a[0] == tn for a in rs.assignments))
+                    names = sorted(ts.assigned_resources)
+                    if names != listed_by or (not ts.scheduled and names):
+                        return {"confirmed": True, "observation": {"parameters": vals, "solution_number": n, "task": tn, "scheduled": ts.scheduled, "assigned_resources": list(ts.assigned_resources), "resources_listing_an_assignment_for_it": listed_by, "earlier_solutions": seen}}
+                seen.append({tn: (ts.start, ts.end, ts.scheduled, list(ts.assigned_resources)) for tn, ts in sol.tasks.items()})
+                sol = solver.find_another_solution()
+        tried += 1
+    return {"confirmed": False, "observation": {"instances_enumerated": tried}}
+
+
+BuildSolution.native_search = staticmethod(_report_native_search)
